@@ -156,8 +156,8 @@ fn classify<K: Kind>(want: &[K::Item], got: &[K::Item]) -> Option<(&'static str,
 }
 
 #[allow(clippy::too_many_arguments)]
-async fn cell<K: Kind>(addr: SocketAddr, set: Arc<CertSet>, topic: String, comp: &str, batching: Option<(u32, u64)>, n: usize, size: usize) -> Result<String, Fail> {
-    let class = format!("batching={}", if batching.is_some() { "on" } else { "off" });
+async fn cell<K: Kind>(addr: SocketAddr, set: Arc<CertSet>, topic: String, comp: &str, batching: Option<(u32, u64)>, n: usize, size: usize, mode: &str) -> Result<String, Fail> {
+    let class = format!("batching={}{}", if batching.is_some() { "on" } else { "off" }, if mode == "send" { String::new() } else { format!(":{mode}") });
     let client: Client = net::default_client(addr, &set).await.map_err(|e| fail("setup", "connect", format!("client connect failed: {e}")))?;
     // subscriber
     let sb = client.subscriber(&topic).with_decoder(K::codec());
@@ -207,11 +207,49 @@ async fn cell<K: Kind>(addr: SocketAddr, set: Arc<CertSet>, topic: String, comp:
     };
     let mut publisher = pb.open().await.map_err(|e| fail("open-error", &class, format!("publisher open failed: {e}")))?;
     // payload_bytes == 1 stands for "mixed": small items with one 100 KB item in the middle
-    let items: Vec<K::Item> = (0..n).map(|i| K::item(i, if size == 1 { if i == n / 2 { 100_000 } else { 24 } } else { size })).collect();
-    for it in &items {
-        publisher.send(it.clone()).await.map_err(|e| fail("send-error", &class, format!("publisher.send failed: {e}")))?;
+    let mut items: Vec<K::Item> = (0..n).map(|i| K::item(i, if size == 1 { if i == n / 2 { 100_000 } else { 24 } } else { size })).collect();
+    let class_p = class.clone();
+    let to_send = items.clone();
+    let mode_p = mode.to_string();
+    let extra: Vec<K::Item> = if mode == "duplicate" { vec![K::item(1000, size.max(8)), K::item(1001, size.max(8))] } else { Vec::new() };
+    let extra_p = extra.clone();
+    let mut pubtask = None;
+    match mode_p.as_str() {
+        // everything pushed through send_all: no flush per item, so the transport's
+        // back-pressure (the subscriber is not reading yet) reaches the publisher
+        "bulk" => {
+            pubtask = Some(tokio::spawn(async move {
+                let class = class_p;
+                let mut st = futures::stream::iter(to_send.into_iter().map(Ok::<_, selium::std::errors::SeliumError>));
+                publisher.send_all(&mut st).await.map_err(|e| fail("send-error", &class, format!("publisher.send_all failed: {e}")))?;
+                publisher.finish().await.map_err(|e| fail("finish-error", &class, format!("publisher.finish failed: {e}")))?;
+                Ok::<(), Fail>(())
+            }));
+            // the subscriber stays idle long enough for every window on the way to fill up
+            tokio::time::sleep(Duration::from_millis(1500)).await;
+        }
+        // a duplicate taken while part of a batch is pending, used and finished before the original
+        "duplicate" => {
+            let cut = to_send.len() - 1;
+            for it in &to_send[..cut] {
+                publisher.send(it.clone()).await.map_err(|e| fail("send-error", &class, format!("publisher.send failed: {e}")))?;
+            }
+            let mut dup = publisher.duplicate().await.map_err(|e| fail("open-error", &class, format!("publisher.duplicate failed: {e}")))?;
+            for it in &extra_p {
+                dup.send(it.clone()).await.map_err(|e| fail("send-error", &class, format!("duplicate.send failed: {e}")))?;
+            }
+            dup.finish().await.map_err(|e| fail("finish-error", &class, format!("duplicate.finish failed: {e}")))?;
+            publisher.send(to_send[cut].clone()).await.map_err(|e| fail("send-error", &class, format!("publisher.send failed: {e}")))?;
+            publisher.finish().await.map_err(|e| fail("finish-error", &class, format!("publisher.finish failed: {e}")))?;
+        }
+        _ => {
+            for it in &to_send {
+                publisher.send(it.clone()).await.map_err(|e| fail("send-error", &class, format!("publisher.send failed: {e}")))?;
+            }
+            publisher.finish().await.map_err(|e| fail("finish-error", &class, format!("publisher.finish failed: {e}")))?;
+        }
     }
-    publisher.finish().await.map_err(|e| fail("finish-error", &class, format!("publisher.finish failed: {e}")))?;
+    let n = n + extra.len();
     // collect. Each next() runs in a task of its own, so that it is re-polled only when the
     // subscriber's waker fires: a poll_next that answers Pending without arranging a wake-up
     // shows as a missing item instead of being rescued by this harness's timer.
@@ -242,7 +280,22 @@ async fn cell<K: Kind>(addr: SocketAddr, set: Arc<CertSet>, topic: String, comp:
             }
         }
     }
+    if let Some(t) = pubtask.take() {
+        match tokio::time::timeout(net::LONG, t).await {
+            Ok(r) => r.map_err(|e| fail("setup", "task", e.to_string()))??,
+            Err(_) => return Err(fail("finish-hang", &class, format!("send_all/finish did not return within 20 s although the subscriber had yielded {} items", got.len()))),
+        }
+    }
     let _ = warm.finish().await;
+    if mode == "duplicate" {
+        // two streams: each publisher's items in its own order, everything exactly once
+        let dup_got: Vec<K::Item> = got.iter().filter(|g| extra.contains(g)).cloned().collect();
+        got.retain(|g| !extra.contains(g));
+        if let Some((clause, msg)) = classify::<K>(&extra, &dup_got) {
+            return Err(fail(clause, &class, format!("items of the duplicate: {msg}")));
+        }
+        items.truncate(items.len());
+    }
     match classify::<K>(&items, &got) {
         None => Ok("delivered-exactly".into()),
         Some((clause, msg)) => Err(fail(clause, &class, msg)),
@@ -255,11 +308,31 @@ fn cells(tier: &str) -> Vec<Value> {
     let mut v = Vec::new();
     let mut id = 0usize;
     let mut push = |codec: &str, comp: &str, batching: Option<(u32, u64)>, n: usize, size: usize, v: &mut Vec<Value>| {
-        v.push(json!({"cell": id, "codec": codec, "compression": comp, "batch_size": batching.map(|b| b.0), "batch_interval_ms": batching.map(|b| b.1), "messages": n, "payload_bytes": size}));
+        v.push(json!({"cell": id, "codec": codec, "compression": comp, "batch_size": batching.map(|b| b.0), "batch_interval_ms": batching.map(|b| b.1), "messages": n, "payload_bytes": size & 0xff_ffff, "mode": (["send", "bulk", "duplicate"][size >> 24])}));
         id += 1;
     };
+    const BULK: usize = 1 << 24;
+    const DUP: usize = 2 << 24;
     let hour = 3_600_000u64;
     let batchings: Vec<Option<(u32, u64)>> = vec![None, Some((1, hour)), Some((2, hour)), Some((3, hour)), Some((5, hour)), Some((1, 0)), Some((2, 0)), Some((3, 0)), Some((5, 0))];
+    // bulk: 6 MB pushed with send_all while the subscriber is idle for 1.5 s (transport back-pressure)
+    let bulk_b: Vec<Option<(u32, u64)>> = if tier == "thorough" { vec![None, Some((16, hour)), Some((16, 0)), Some((3, hour))] } else { vec![None, Some((16, hour))] };
+    for (k, b) in bulk_b.iter().enumerate() {
+        let comps_b: Vec<&str> = if tier == "thorough" { vec!["none", "lz4"] } else { vec!["none"] };
+        for comp in comps_b {
+            push(codecs[k % 3], comp, *b, 3000, BULK | 2048, &mut v);
+        }
+    }
+    // duplicate() taken while 1..size-1 items of a batch are pending
+    for b in [Some((5u32, hour)), Some((3, hour)), Some((2, 0)), None] {
+        let s = b.map(|x| x.0 as usize).unwrap_or(2);
+        for pending in 1..=s {
+            if tier != "thorough" && pending != s - 1 && pending != 1 {
+                continue;
+            }
+            push(codecs[pending % 3], "none", b, pending + 1, DUP | 24, &mut v);
+        }
+    }
     if tier == "thorough" {
         for codec in codecs {
             for comp in comps {
@@ -321,13 +394,14 @@ pub async fn run(tier: &str, replaying: bool) -> ! {
         async move {
             let n = c["messages"].as_u64().unwrap() as usize;
             let size = c["payload_bytes"].as_u64().unwrap() as usize;
+            let mode = c["mode"].as_str().unwrap_or("send").to_string();
             let batching = c["batch_size"].as_u64().map(|s| (s as u32, c["batch_interval_ms"].as_u64().unwrap_or(0)));
             let comp = c["compression"].as_str().unwrap().to_string();
             let topic = format!("/c03ns/t{}x{}", c["cell"], salt.fetch_add(1, Ordering::SeqCst));
             let r = match c["codec"].as_str().unwrap() {
-                "string" => cell::<KString>(addr, set, topic, &comp, batching, n, size).await,
-                "bytes" => cell::<KBytes>(addr, set, topic, &comp, batching, n, size).await,
-                _ => cell::<KBincode>(addr, set, topic, &comp, batching, n, size).await,
+                "string" => cell::<KString>(addr, set, topic, &comp, batching, n, size, &mode).await,
+                "bytes" => cell::<KBytes>(addr, set, topic, &comp, batching, n, size, &mode).await,
+                _ => cell::<KBincode>(addr, set, topic, &comp, batching, n, size, &mode).await,
             };
             (n > 0, r)
         }
@@ -338,7 +412,7 @@ pub async fn run(tier: &str, replaying: bool) -> ! {
     finish(
         rep,
         outs,
-        "every cell of codec {String, Bytes, Bincode struct} x compression {none, gzip, zlib, zstd, lz4, brotli} x batching {off; size 1,2,3,5 x interval 1h (never elapses) / 0 (always elapsed)} x message count 0..=2*size+1 x payload {0, 24 B, 100 KB, mixed (one 100 KB item between 24 B items)} in thorough; quick: every batching config x every message count with codec/compression rotating over all 18 pairs, plus mixed payload sizes under every batching config, plus every pair x {unbatched, size 2} x three payload sizes. Each cell: real Subscriber (attached via a warm-up barrier), real Publisher sends n items then finish(); oracle: the subscriber yields exactly the sent items, equal, in order, once, nothing else. non-trivial = at least one message",
+        "every cell of codec {String, Bytes, Bincode struct} x compression {none, gzip, zlib, zstd, lz4, brotli} x batching {off; size 1,2,3,5 x interval 1h (never elapses) / 0 (always elapsed)} x message count 0..=2*size+1 x payload {0, 24 B, 100 KB, mixed (one 100 KB item between 24 B items)} in thorough; quick: every batching config x every message count with codec/compression rotating over all 18 pairs, plus mixed payload sizes under every batching config, plus every pair x {unbatched, size 2} x three payload sizes. Plus bulk cells (3000 items of 2 KiB pushed with send_all while the subscriber stays idle for 1.5 s, so the transport's back-pressure reaches the publisher; unbatched and batched) and duplicate cells (Publisher::duplicate() taken while 1..size items of a batch are pending; the duplicate sends two items and finishes before the original continues; every item of either exactly once, each publisher's in order). Each cell: real Subscriber (attached via a warm-up barrier), real Publisher sends n items then finish(); oracle: the subscriber yields exactly the sent items, equal, in order, once, nothing else. non-trivial = at least one message",
         "each cell runs against one shared in-process server on a unique topic with its own client connection",
         json!({}),
         replaying,
